@@ -762,7 +762,7 @@ pub fn gen_sub_area(src: &mut Src, w: u32, h: u32) -> [i32; 4] {
 
 pub fn gen_image(src: &mut Src, k: &Knobs, bits: u32, with_subs: bool) -> ImageSpec {
     let ppb = if bits < 8 { 8 / bits } else { 1 };
-    let huge = src.draw(64) == 63;
+    let huge = if crate::prop::deep() { src.draw(16) == 15 } else { src.draw(64) == 63 };
     let (w, h) = if huge {
         // rarely: rows longer than 255 pixels / bytes, more than 65535 pixels in total
         match src.draw(4) {
